@@ -172,4 +172,110 @@ theorem realLit_no_marker {lo : Str} {neg : Bool} {ip fp : Str} {dot : Bool} (h 
       · have := hfp 'x' hm; simp [isDigit] at this
     | false => simp at hm
 
+/-! ## every accepted real argument has the documented decimal shape -/
+
+/-- blanks, optional sign, digits with an optional point (at least one digit), optional exponent `e[sign]digits`, blanks -/
+def RealSyntax (s : Str) : Prop :=
+  ∃ (ws1 sign ip dotfp ex ws2 : Str),
+    (∀ c ∈ ws1, isSpace c = true) ∧ (sign = [] ∨ sign = ['-'] ∨ sign = ['+']) ∧
+    (∀ d ∈ ip, isDigit d = true) ∧
+    (dotfp = [] ∨ ∃ fp, dotfp = '.' :: fp ∧ ∀ d ∈ fp, isDigit d = true) ∧
+    (ip ≠ [] ∨ ∃ fp, dotfp = '.' :: fp ∧ fp ≠ []) ∧
+    (ex = [] ∨ ∃ (c : Char) (sg ed : Str), ex = c :: (sg ++ ed) ∧ (c = 'e' ∨ c = 'E') ∧ (sg = [] ∨ sg = ['-'] ∨ sg = ['+']) ∧
+        ed ≠ [] ∧ ∀ d ∈ ed, isDigit d = true) ∧
+    (∀ c ∈ ws2, isSpace c = true) ∧
+    s = ws1 ++ sign ++ ip ++ dotfp ++ ex ++ ws2
+
+theorem fracOf_spec (t1 : Str) :
+    (fracOf t1 = ([], t1)) ∨
+    (∃ r, t1 = '.' :: r ∧ fracOf t1 = (r.takeWhile isDigit, r.dropWhile isDigit)) := by
+  unfold fracOf
+  split
+  · rename_i r; right; exact ⟨r, rfl, rfl⟩
+  · left; rfl
+
+theorem expOf_spec (t2 : Str) :
+    (expOf t2 = (0, t2)) ∨
+    (∃ (c : Char) (r : Str), t2 = c :: r ∧ (c = 'e' ∨ c = 'E') ∧ (signOf r).2.takeWhile isDigit ≠ [] ∧
+      (expOf t2).2 = (signOf r).2.dropWhile isDigit) := by
+  cases t2 with
+  | nil => left; rfl
+  | cons c r =>
+    by_cases hc : (c == 'e' || c == 'E') = true
+    · by_cases he : ((signOf r).2.takeWhile isDigit).isEmpty = true
+      · left; simp only [expOf, hc, he, ↓reduceIte]
+      · right
+        refine ⟨c, r, rfl, by simpa using hc, ?_, ?_⟩
+        · intro h; rw [h] at he; exact he rfl
+        · simp only [expOf, hc, he, Bool.false_eq_true, ↓reduceIte]
+    · left
+      have : (c == 'e' || c == 'E') = false := by simpa using hc
+      simp only [expOf, this, Bool.false_eq_true, ↓reduceIte]
+
+/-- **"a value of the wrong type", reals**: whatever `esl_str_IsReal` accepts (in the modelled decimal grammar) has the
+    documented shape -/
+theorem isReal_sound (s : Str) (h : isReal s = true) : RealSyntax s := by
+  unfold isReal at h
+  cases hst : strtod s with
+  | none => simp [hst] at h
+  | some r =>
+    obtain ⟨v, rest⟩ := r
+    simp only [hst] at h
+    have hws2 : ∀ c ∈ rest, isSpace c = true := fun c hc => List.all_eq_true.mp h c hc
+    unfold strtod at hst
+    simp only at hst
+    split at hst
+    · cases hst
+    · rename_i hne
+      injection hst with hst
+      have hrest : (expOf (fracOf ((signOf (s.dropWhile isSpace)).2.dropWhile isDigit)).2).2 = rest := congrArg Prod.snd hst
+      obtain ⟨sign, hsign, ht⟩ := signOf_spec (s.dropWhile isSpace)
+      -- names for the pieces
+      generalize hT : (signOf (s.dropWhile isSpace)).2 = t at *
+      have h1 : s = s.takeWhile isSpace ++ s.dropWhile isSpace := (List.takeWhile_append_dropWhile).symm
+      have h2 : t = t.takeWhile isDigit ++ t.dropWhile isDigit := (List.takeWhile_append_dropWhile).symm
+      generalize hT1 : t.dropWhile isDigit = t1 at *
+      -- fraction part
+      have hfrac : ∃ dotfp, t1 = dotfp ++ (fracOf t1).2 ∧ (dotfp = [] ∨ ∃ fp, dotfp = '.' :: fp ∧ ∀ d ∈ fp, isDigit d = true) ∧
+          (dotfp = [] → (fracOf t1).1 = []) ∧ (∀ fp, dotfp = '.' :: fp → (fracOf t1).1 = fp) := by
+        rcases fracOf_spec t1 with hf | ⟨r, hr, hf⟩
+        · exact ⟨[], by simp [hf], Or.inl rfl, (fun _ => by simp [hf]), (fun fp h => by cases h)⟩
+        · refine ⟨'.' :: r.takeWhile isDigit, ?_, Or.inr ⟨_, rfl, all_takeWhile _ _⟩, (fun h => by cases h), ?_⟩
+          · rw [hf, hr]; simp [List.takeWhile_append_dropWhile]
+          · intro fp hfp; injection hfp with _ hfp; rw [hf]; exact hfp
+      obtain ⟨dotfp, hd1, hd2, hd3, hd4⟩ := hfrac
+      generalize hT2 : (fracOf t1).2 = t2 at *
+      -- exponent part
+      have hexp : ∃ ex, t2 = ex ++ rest ∧ (ex = [] ∨ ∃ (c : Char) (sg ed : Str), ex = c :: (sg ++ ed) ∧ (c = 'e' ∨ c = 'E') ∧
+          (sg = [] ∨ sg = ['-'] ∨ sg = ['+']) ∧ ed ≠ [] ∧ ∀ d ∈ ed, isDigit d = true) := by
+        rcases expOf_spec t2 with he | ⟨c, r, hr, hc, hne', he⟩
+        · refine ⟨[], ?_, Or.inl rfl⟩
+          have : t2 = rest := by rw [he] at hrest; exact hrest
+          simpa using this
+        · obtain ⟨sg, hsg, hsr⟩ := signOf_spec r
+          refine ⟨c :: (sg ++ (signOf r).2.takeWhile isDigit), ?_, Or.inr ⟨c, sg, _, rfl, hc, hsg, hne', all_takeWhile _ _⟩⟩
+          rw [he] at hrest
+          rw [hr, ← hrest]
+          conv => lhs; rw [hsr]
+          have := (List.takeWhile_append_dropWhile (p := isDigit) (l := (signOf r).2)).symm
+          conv => lhs; rw [this]
+          simp [List.append_assoc]
+      obtain ⟨ex, he1, he2⟩ := hexp
+      refine ⟨s.takeWhile isSpace, sign, t.takeWhile isDigit, dotfp, ex, rest, all_takeWhile _ _, hsign, all_takeWhile _ _, hd2, ?_, he2, hws2, ?_⟩
+      · -- at least one digit
+        by_cases hip : t.takeWhile isDigit = []
+        · right
+          rcases hd2 with hd | ⟨fp, hfp, _⟩
+          · have := hd3 hd
+            rw [hip, this] at hne
+            exact absurd rfl hne
+          · refine ⟨fp, hfp, ?_⟩
+            intro hfp0
+            have := hd4 fp hfp
+            rw [hip, this, hfp0] at hne
+            exact absurd rfl hne
+        · left; exact hip
+      · conv => lhs; rw [h1, ht, h2, hd1, he1]
+        simp [List.append_assoc]
+
 end EaselModel.Getopts
